@@ -181,6 +181,9 @@ func (t *Transaction) Write(p []byte) (n int, err error) {
 
 	scanner := bufio.NewScanner(bytes.NewReader(p[22:tranLen]))
 	scanner.Split(FieldScanner)
+	// A field carries up to 65,535 bytes of data after its 4 byte header, which is more than the scanner's default
+	// token limit of 64 KiB.
+	scanner.Buffer(nil, 2*bufio.MaxScanTokenSize)
 
 	for i := 0; i < int(paramCount); i++ {
 		if !scanner.Scan() {
